@@ -20,6 +20,10 @@ class Unsupported(BaseException):
     """the target used an operation the symbolic layer does not model -> harness error, never a verdict"""
 
 
+class SymbolicAsInteger(TypeError):
+    """a real-valued symbolic scalar reached a place that needs a machine integer"""
+
+
 class Path:
     __slots__ = ("pc", "axioms", "kind", "value", "decisions", "tb", "sqrts")
 
@@ -516,7 +520,9 @@ class SR:
         c = _pyconst(self.z)
         if c is not None and c.denominator == 1:
             return int(c)
-        raise Unsupported("symbolic value used as a concrete index")
+        # numpy asks for this when a real number is stored into an INTEGER array (silent truncation in the real code) or used as an index:
+        # an ordinary exception of the path (the replay on the real code decides whether it is a defect), not a harness error
+        raise SymbolicAsInteger("a symbolic real number was used where the code needs a machine integer (stored into an integer array / used as an index)")
 
     def __float__(self):
         c = _pyconst(self.z)
